@@ -88,7 +88,10 @@ def SPELLINGS(cur):
             c + "\x1e", c + "\x85", c + "\u2028", " " + c + " ",
             c[:1] + "_" + c[1:] if len(c) > 1 else "1_0", "0x10", "inf",
             "-inf", "Infinity", "1e999", "1e400", "1e-400", c + ".0",
-            "0" + c]
+            "0" + c,
+            # far beyond any machine: must end in an error message (the
+            # worker's address space is limited, see runner.py)
+            "99999999999999999999"]
 CHUNK = 40
 # runs of this check cost 30-800 ms each: smaller determinism sample
 SELFTEST_N = {"quick": 10, "thorough": 60}
